@@ -115,6 +115,8 @@ const LEAF_CAP: usize = 4096;
 const DEPTH_CAP: usize = 64;
 /// visits of one block within one frame before a path is cut (concrete loops of the crate run at most 16 times)
 const DEFAULT_LOOP_BOUND: usize = 48;
+/// visits of one block within one frame for loops without symbolic forks
+const CONCRETE_LOOP_CAP: usize = 4096;
 
 type R<X> = Result<X, String>;
 
@@ -1321,13 +1323,15 @@ impl<'tcx> Cx<'tcx> {
                 }
             }
             {
-                let bound = self.loop_bound.unwrap_or(DEFAULT_LOOP_BOUND);
+                // an explicit bound cuts every loop; by default only loops that FORK on a symbolic condition are cut
+                // (at the fork, below): a loop over concrete indices runs as long as it runs
+                let bound = self.loop_bound.unwrap_or(CONCRETE_LOOP_CAP);
                 let f = st.frames.last_mut().unwrap();
                 if f.visits.is_empty() {
                     f.visits = vec![0; f.body.basic_blocks.len()];
                 }
                 let i = f.bb.as_usize();
-                f.visits[i] += 1;
+                f.visits[i] = f.visits[i].saturating_add(1);
                 if f.visits[i] as usize > bound {
                     self.stats.borrow_mut().leaves += 1;
                     return Outcome::Cut(format!("loop bound {} exceeded", bound));
@@ -1468,6 +1472,10 @@ impl<'tcx> Cx<'tcx> {
                             if let Some(&(_, v)) = st.decided.iter().find(|(d, _)| *d == t) {
                                 self.goto(&mut st, targets.target_for_value(v));
                                 continue;
+                            }
+                            if self.loop_bound.is_none() && st.frames.iter().any(|f| f.visits.get(f.bb.as_usize()).map(|v| *v as usize > DEFAULT_LOOP_BOUND).unwrap_or(false)) {
+                                self.stats.borrow_mut().leaves += 1;
+                                return Outcome::Cut(format!("loop bound {} exceeded", DEFAULT_LOOP_BOUND));
                             }
                             let dty = self.subst(&fr, discr.ty(fr.body, self.tcx));
                             // values already excluded on this path (an earlier `otherwise` of the same term)
